@@ -219,13 +219,29 @@ func raceLateCtx(c *Ctx, k int) {
 	}
 	op := fmt.Sprintf("!race-latectx k=%d", k)
 	ans := ""
+	var h rueidis.VerifHandle
+	back := false
 	select {
-	case h := <-ret:
+	case h = <-ret:
+		back = true
+	case <-time.After(2 * time.Second):
+		for round := 0; round < 4 && !back; round++ {
+			select {
+			case h = <-ret:
+				back = true
+			case <-time.After(20 * time.Second):
+				if vp.Waiters() >= 1 { // parked and not notified: nothing will ever wake it
+					round = 4
+				}
+			}
+		}
+	}
+	if back {
 		ans = "returned " + h.Kind()
 		vp.Store(h)
-	case <-time.After(2 * time.Second):
+	} else {
 		ans = "stuck"
-		c.Fail("pool:lost-wakeup:latectx", op, "the waiter is still in cond.Wait 2s after its context became done between the wait-loop check and cond.Wait (lost wake-up)")
+		c.Fail("pool:lost-wakeup:latectx", op, "the waiter is still parked in cond.Wait 20s after its context became done between the wait-loop check and cond.Wait (lost wake-up)")
 	}
 	vp.Close()
 	if ans == "stuck" {
@@ -276,7 +292,7 @@ func raceCleanup(c *Ctx, capN, minN, idleN int) {
 	}()
 	select {
 	case <-stored:
-	case <-time.After(60 * time.Millisecond): // the stores wait for the pool mutex while the cleanup closes under it
+	case <-time.After(150 * time.Millisecond): // the stores wait for the pool mutex while the cleanup closes under it
 	}
 	close(gate)
 	<-stored
@@ -313,6 +329,32 @@ func raceCleanup(c *Ctx, capN, minN, idleN int) {
 	vp.Close()
 }
 
+// curGoid is the id of the calling goroutine (diagnostics only).
+func curGoid() int64 {
+	var buf [64]byte
+	n := runtime.Stack(buf[:], false)
+	f := strings.Fields(string(buf[:n]))
+	if len(f) < 2 {
+		return -1
+	}
+	var id int64
+	fmt.Sscan(f[1], &id)
+	return id
+}
+
+// goroutineStack returns the stack of goroutine id from a dump of all goroutines.
+func goroutineStack(id int64) string {
+	buf := make([]byte, 8<<20)
+	buf = buf[:runtime.Stack(buf, true)]
+	pre := fmt.Sprintf("goroutine %d [", id)
+	for _, g := range strings.Split(string(buf), "\n\n") {
+		if strings.HasPrefix(g, pre) {
+			return g
+		}
+	}
+	return fmt.Sprintf("(goroutine %d not found: it has returned)", id)
+}
+
 func spin(n int) {
 	x := 0
 	for i := 0; i < n; i++ {
@@ -337,7 +379,9 @@ func raceCancel(c *Ctx, iters int) {
 	for i := range seeds {
 		seeds[i] = c.Rng.Uint64()
 	}
-	var stuck, done atomic.Int64
+	var stuck, done, suspects, late, maxLate atomic.Int64
+	diag := os.Getenv("VERIF_RACE_DIAG") != ""
+	grace := 30 * time.Second
 	deadline := time.Now().Add(time.Duration(20+iters/2000) * time.Second)
 	var wg sync.WaitGroup
 	for wk := 0; wk < workers; wk++ {
@@ -348,11 +392,15 @@ func raceCancel(c *Ctx, iters int) {
 			mk := func(ctx context.Context) *rueidis.VerifWire { return rueidis.VerifNewWire(0, nil, false) }
 			vp := rueidis.VerifNewPool(1, 0, 0, mk)
 			vp.Acquire(context.Background())
-			for i := 0; i < per && time.Now().Before(deadline) && stuck.Load() < 20; i++ {
+			var goid atomic.Int64
+			for i := 0; i < per && time.Now().Before(deadline) && stuck.Load() < 3; i++ {
 				ctx, cancel := context.WithCancel(context.Background())
 				ret := make(chan rueidis.VerifHandle, 1)
 				var started atomic.Bool
 				go func() {
+					if diag {
+						goid.Store(curGoid())
+					}
 					started.Store(true)
 					ret <- vp.Acquire(ctx)
 				}()
@@ -369,12 +417,55 @@ func raceCancel(c *Ctx, iters int) {
 				case h := <-ret:
 					vp.Store(h)
 				case <-time.After(time.Second):
-					// the waiter sleeps although its context is done and nobody will ever Store
-					stuck.Add(1)
-					vp.Close() // unstick the goroutine, start over with a new pool
-					<-ret
-					vp = rueidis.VerifNewPool(1, 0, 0, mk)
-					vp.Acquire(context.Background())
+					// Suspect. Under machine load the observer itself (or the whole process) can be
+					// stalled for a second: then the timer and the result are both ready and select
+					// picks either. So look at the result first, then keep observing: a waiter that
+					// comes back late was only delayed by the scheduler; a lost wake-up never comes
+					// back, because nobody ever stores into this pool.
+					suspects.Add(1)
+					snap, wq := vp.Snapshot(), vp.Waiters()
+					var stack string
+					if diag {
+						stack = goroutineStack(goid.Load())
+					}
+					t0 := time.Now()
+					var h rueidis.VerifHandle
+					back := false
+					for round := 0; round < 4 && !back; round++ {
+						select {
+						case h = <-ret:
+							back = true
+						case <-time.After(grace):
+							// still not back: lost only if it is parked in cond.Wait un-notified;
+							// a notified waiter that has not run yet gets more time
+							if vp.Waiters() >= 1 {
+								round = 4
+							}
+						}
+					}
+					if back {
+						lateBy := time.Second + time.Since(t0)
+						for {
+							m := maxLate.Load()
+							if int64(lateBy) <= m || maxLate.CompareAndSwap(m, int64(lateBy)) {
+								break
+							}
+						}
+						late.Add(1)
+						if diag {
+							fmt.Fprintf(os.Stderr, "RACE-DIAG late waiter: returned %s after %v; at 1s: size=%d idle=%d down=%v condWaiters=%d\n%s\n", h.Kind(), lateBy, snap.Size, len(snap.List), snap.Down, wq, stack)
+						}
+						vp.Store(h)
+					} else {
+						if diag {
+							fmt.Fprintf(os.Stderr, "RACE-DIAG STUCK waiter: not back after %v; at 1s: size=%d idle=%d down=%v condWaiters=%d; now condWaiters=%d\nstack at 1s:\n%s\nstack now:\n%s\n", time.Since(t0)+time.Second, snap.Size, len(snap.List), snap.Down, wq, vp.Waiters(), stack, goroutineStack(goid.Load()))
+						}
+						stuck.Add(1)
+						vp.Close() // unstick the goroutine, start over with a new pool
+						<-ret
+						vp = rueidis.VerifNewPool(1, 0, 0, mk)
+						vp.Acquire(context.Background())
+					}
 				}
 				done.Add(1)
 			}
@@ -385,8 +476,11 @@ func raceCancel(c *Ctx, iters int) {
 	op := fmt.Sprintf("!race-cancel iters=%d", done.Load())
 	c.Emit(op, fmt.Sprintf("stuck=%d", stuck.Load()), true)
 	c.Hit("race-cancel")
+	c.Dist["race-cancel:slower-than-1s"] += int(suspects.Load())
+	c.Dist["race-cancel:returned-late"] += int(late.Load())
+	c.Dist["race-cancel:max-late-ms"] = int(maxLate.Load() / int64(time.Millisecond))
 	if stuck.Load() > 0 {
-		c.Fail("pool:lost-wakeup:cancel", op, fmt.Sprintf("%d of %d waiters stayed in cond.Wait after their context was cancelled", stuck.Load(), done.Load()))
+		c.Fail("pool:lost-wakeup:cancel", op, fmt.Sprintf("%d of %d waiters were still parked in cond.Wait %v after their context was cancelled (nobody stores into that pool)", stuck.Load(), done.Load(), grace+time.Second))
 	}
 }
 
@@ -398,7 +492,7 @@ func raceStore(c *Ctx, iters int) {
 	held := vp.Acquire(context.Background())
 	stuck, wrong := 0, 0
 	done := 0
-	for i := 0; i < iters && stuck < 5; i++ {
+	for i := 0; i < iters && stuck < 2; i++ {
 		ret := make(chan rueidis.VerifHandle, 1)
 		var started atomic.Bool
 		go func() {
@@ -411,13 +505,30 @@ func raceStore(c *Ctx, iters int) {
 		spin(c.Rng.IntN(3000))
 		want := held.Kind()
 		vp.Store(held)
+		var h rueidis.VerifHandle
+		back := false
 		select {
-		case h := <-ret:
+		case h = <-ret:
+			back = true
+		case <-time.After(time.Second):
+			// see raceCancel: result first, then a long grace; lost only if still parked un-notified
+			for round := 0; round < 4 && !back; round++ {
+				select {
+				case h = <-ret:
+					back = true
+				case <-time.After(30 * time.Second):
+					if vp.Waiters() >= 1 {
+						round = 4
+					}
+				}
+			}
+		}
+		if back {
 			if h.Kind() != want {
 				wrong++
 			}
 			held = h
-		case <-time.After(500 * time.Millisecond):
+		} else {
 			stuck++
 			vp.Close()
 			<-ret
